@@ -909,4 +909,157 @@ class SpellingInvariance(BObl):
                  f'{t1[:220]}\n--- spelling 2\n{t2[:220]}')[:900])
 
 
-OBLIGATIONS = [Document(), Element(), SpellingInvariance()]
+# ------------------------------------------------------------------ exotic quoted identifiers
+
+EXOTIC_NAMES = ['a.b', 'x,y', '(z)', '(w', 'v)', ' lead', 'trail ']
+
+
+def _xt(name='t', cols=('id',), **kw):
+    d = {'name': name, 'columns': [{'name': c, 'type': 'int'} for c in cols]}
+    d.update(kw)
+    return d
+
+
+def exotic_cases():
+    """(site, variant name) -> builder(X) giving (model, force).  One exotic name X sits in exactly one *use*
+    position; everything else is a plain word in documentation spelling."""
+    def doc(**kw):
+        d = {'tables': [], 'enums': [], 'refs': [], 'table_groups': [], 'sticky_notes': [], 'project': None,
+             'allow_properties': False}
+        d.update(kw)
+        return d
+
+    def ref(t1, c1, t2, c2, typ='>', inline=False):
+        return {'type': typ, 'inline': inline, 't1': t1, 'c1': c1, 't2': t2, 'c2': c2}
+    P = 'public'
+    out = {}
+    # declarations
+    out[('table', 'decl')] = lambda X: (doc(tables=[_xt(X)]), {})
+    out[('table', 'decl-qualified')] = lambda X: (doc(tables=[_xt(X)]), {'declpublic': 'qualified'})
+    out[('schema', 'decl')] = lambda X: (doc(tables=[_xt('t', schema=X)]), {})
+    out[('alias', 'decl')] = lambda X: (doc(tables=[_xt('t', alias=X)]), {})
+    out[('column', 'decl')] = lambda X: (doc(tables=[_xt('t', ('id', X))]), {})
+    out[('column', 'decl-settings')] = lambda X: (doc(tables=[{'name': 't', 'columns': [
+        {'name': X, 'type': 'varchar(10)', 'pk': True, 'note': 'n', 'default': {'kind': 'int', 'value': 1}}]}]), {})
+    out[('enum', 'decl')] = lambda X: (doc(enums=[{'name': X, 'items': [{'name': 'a'}]}], tables=[_xt()]), {})
+    out[('enum-schema', 'decl')] = lambda X: (doc(enums=[{'schema': X, 'name': 'e', 'items': [{'name': 'a'}]}],
+                                                   tables=[_xt()]), {})
+    out[('enum-item', 'decl')] = lambda X: (doc(enums=[{'name': 'e', 'items': [{'name': 'a'}, {'name': X, 'note': 'n'}]}],
+                                                 tables=[_xt()]), {})
+    out[('group-name', 'decl')] = lambda X: (doc(tables=[_xt()], table_groups=[{'name': X, 'items': [[P, 't']]}]), {})
+    out[('project', 'decl')] = lambda X: (doc(tables=[_xt()], project={'name': X, 'items': [['author', 'me']]}), {})
+    out[('sticky-note', 'decl')] = lambda X: (doc(tables=[_xt()], sticky_notes=[{'name': X, 'text': 'x'}]), {})
+    out[('ref-name', 'short')] = lambda X: (doc(tables=[_xt('t', ('id', 'k'))],
+                                                refs=[dict(ref([P, 't'], ['k'], [P, 't'], ['id']), name=X)]), {'refform': 'short'})
+    out[('ref-name', 'long')] = lambda X: (doc(tables=[_xt('t', ('id', 'k'))],
+                                               refs=[dict(ref([P, 't'], ['k'], [P, 't'], ['id']), name=X)]), {'refform': 'long'})
+    # enum used as a column type
+    for addr in ('bare', 'qualified'):
+        out[('enum-typed-column', f'name-{addr}')] = lambda X, addr=addr: (
+            doc(enums=[{'name': X, 'items': [{'name': 'a'}]}], tables=[_xt('t', ()) | {'columns': [
+                {'name': 'c', 'type': {'enum': [P, X]}}]}]), {'enumaddr': addr})
+    out[('enum-typed-column', 'schema')] = lambda X: (
+        doc(enums=[{'schema': X, 'name': 'e', 'items': [{'name': 'a'}]}], tables=[{'name': 't', 'columns': [
+            {'name': 'c', 'type': {'enum': [X, 'e']}}]}]), {})
+    out[('enum-typed-column', 'name-in-schema')] = lambda X: (
+        doc(enums=[{'schema': 's1', 'name': X, 'items': [{'name': 'a'}]}], tables=[{'name': 't', 'columns': [
+            {'name': 'c', 'type': {'enum': ['s1', X]}}]}]), {})
+    # index subjects
+    out[('index-subject', 'single')] = lambda X: (doc(tables=[_xt('t', ('id', X), indexes=[{'subjects': [{'col': X}]}])]), {})
+    out[('index-subject', 'composite')] = lambda X: (
+        doc(tables=[_xt('t', ('id', X), indexes=[{'subjects': [{'col': 'id'}, {'col': X}], 'unique': True}])]), {})
+    # column names in ref endpoints
+    for form in ('short', 'long'):
+        out[('ref-endpoint-column', f'left-{form}')] = lambda X, form=form: (
+            doc(tables=[_xt('t', ('id', X)), _xt('u')], refs=[ref([P, 't'], [X], [P, 'u'], ['id'])]), {'refform': form})
+        out[('ref-endpoint-column', f'right-{form}')] = lambda X, form=form: (
+            doc(tables=[_xt('t', ('id', X)), _xt('u')], refs=[ref([P, 'u'], ['id'], [P, 't'], [X], '<')]), {'refform': form})
+        out[('ref-endpoint-column', f'composite-{form}')] = lambda X, form=form: (
+            doc(tables=[_xt('t', ('id', X)), _xt('u', ('p', 'q'))], refs=[ref([P, 't'], ['id', X], [P, 'u'], ['p', 'q'], '-')]),
+            {'refform': form})
+    out[('ref-endpoint-column', 'inline-target')] = lambda X: (
+        doc(tables=[_xt('t', ('id', X)), _xt('u')], refs=[ref([P, 'u'], ['id'], [P, 't'], [X], '>', True)]), {})
+    out[('ref-endpoint-column', 'inline-declaring')] = lambda X: (
+        doc(tables=[_xt('t', ('id', X)), _xt('u')], refs=[ref([P, 't'], [X], [P, 'u'], ['id'], '>', True)]), {})
+    # table / schema / alias mentioned in a ref endpoint
+    for form in ('short', 'long', 'inline'):
+        inl = form == 'inline'
+        f = {} if inl else {'refform': form}
+        for addr in ('bare', 'qualified'):
+            out[('ref-endpoint-table', f'name-{addr}-{form}')] = lambda X, inl=inl, f=f, addr=addr: (
+                doc(tables=[_xt('u', ('id', 'k')), _xt(X)], refs=[ref([P, 'u'], ['k'], [P, X], ['id'], '>', inl)]),
+                dict(f, addr=addr))
+        out[('ref-endpoint-table', f'schema-{form}')] = lambda X, inl=inl, f=f: (
+            doc(tables=[_xt('u', ('id', 'k')), _xt('t', schema=X)], refs=[ref([P, 'u'], ['k'], [X, 't'], ['id'], '>', inl)]),
+            dict(f, addr='qualified'))
+        out[('ref-endpoint-table', f'alias-{form}')] = lambda X, inl=inl, f=f: (
+            doc(tables=[_xt('u', ('id', 'k')), _xt('t', alias=X)], refs=[ref([P, 'u'], ['k'], [P, 't'], ['id'], '>', inl)]),
+            dict(f, addr='alias'))
+    # group items
+    for addr in ('bare', 'qualified'):
+        out[('group-item', f'name-{addr}')] = lambda X, addr=addr: (
+            doc(tables=[_xt(X)], table_groups=[{'name': 'g', 'items': [[P, X]]}]), {'addr': addr})
+    out[('group-item', 'schema')] = lambda X: (
+        doc(tables=[_xt('t', schema=X)], table_groups=[{'name': 'g', 'items': [[X, 't']]}]), {'addr': 'qualified'})
+    out[('group-item', 'alias')] = lambda X: (
+        doc(tables=[_xt('t', alias=X)], table_groups=[{'name': 'g', 'items': [[P, 't']]}]), {'addr': 'alias'})
+    return out
+
+
+_EXOTIC_CASES = exotic_cases()
+
+
+class ExoticNames(BObl):
+    id = 'C01.B.exotic-names'
+    property = 'C01'
+    rule = ('quoted identifiers that contain `.`, `,`, `(`, `)` or a leading/trailing space (7 names), each placed in '
+            'exactly one use position of a minimal document: declaration of table / schema / alias / column / enum / '
+            'enum schema / enum item / group / project / sticky note / ref name; enum (name or schema) used as a column '
+            'type bare and qualified; index subject single and composite; column in a ref endpoint left/right/composite '
+            'x short/block, inline target and inline declaring column; table, schema or alias mentioned in a ref endpoint '
+            'x short/block/inline; table, schema or alias as a group item.  Contract: accepted, view == model, and the '
+            'identity clauses of C05 (endpoints, enum type, group items).  The key is `exotic-name:<use position>` only '
+            '(never the character, the outcome or the spelling), so one defect of one position has exactly one key.  '
+            'Exhaustive and independent of the seed; all other obligations use exotic=False.')
+    bound = f'{len(_EXOTIC_CASES)} use positions/variants x {len(EXOTIC_NAMES)} names, exhaustive in both tiers'
+    budget = {'quick': 10.0, 'thorough': 10.0}
+    chunk = 32
+
+    def exhaustive(self, tier):
+        return True
+
+    def cases(self, tier, seed):
+        for (site, variant) in _EXOTIC_CASES:
+            for k in range(len(EXOTIC_NAMES)):
+                yield {'site': site, 'variant': variant, 'name': k}
+
+    def check(self, recipe):
+        site = recipe['site']
+        X = EXOTIC_NAMES[recipe['name']]
+        m, force = _EXOTIC_CASES[(site, recipe['variant'])](X)
+        m = normalize(m)
+        sp = {'seed': 0, 'pin': ['*'], 'force': dict(force)}
+        text = surface_ex(m, sp)[0]
+        key = f'exotic-name:{site}'
+        try:
+            db = parse_real(text, False)
+            v = view(db)
+        except Exception as e:
+            return key, (f'expected the document to be accepted with the name {X!r} as {site} ({recipe["variant"]}); observed '
+                         f'{type(e).__name__}: {str(e)[:150]}; document:\n{text[:450]}')[:900]
+        if v != m:
+            ds = diff(v, m)
+            return key, (f'expected view == declared model with the name {X!r} as {site} ({recipe["variant"]}); observed '
+                         f'{"; ".join(ds[:3])[:300]} (observed != declared); document:\n{text[:450]}')[:900]
+        from bounded.c05 import link_failures      # late import: bounded.c05 imports this module
+        try:
+            fails = link_failures(db, m)
+        except Exception as e:
+            fails = [('graph-unusable', f'{type(e).__name__}: {str(e)[:150]}')]
+        if fails:
+            return key, (f'expected a consistently linked graph with the name {X!r} as {site} ({recipe["variant"]}); observed '
+                         f'{fails[0][0]}: {fails[0][1][:250]}; document:\n{text[:450]}')[:900]
+        return None
+
+
+OBLIGATIONS = [Document(), Element(), SpellingInvariance(), ExoticNames()]
